@@ -161,11 +161,21 @@ func runC06(t *testing.T, planAny any, res *simnet.Result) {
 		// newest update of origin y that has been handed to x (what x must have accepted)
 		newestAtX := func(y string) (epochSeq, bool) {
 			best, ok := epochSeq{}, false
+			hs := c06Handshakes(w, x.ID)
 			for _, r := range w.Wire() {
 				if r.Route == nil || r.To != x.ID || r.Route.NodeID != y || r.Route.SuspectedDuplicate != 0 {
 					continue
 				}
 				if len(w.DeliveredAt(r)) == 0 {
+					continue
+				}
+				// the first routing message on a fresh session is the handshake, and an update of a direct
+				// neighbour that does not list x is a late initialisation request: x does not process either
+				// as an update, so neither tells what x has accepted
+				if _, listed := r.Route.Connections[x.ID]; r.Route.NodeID == r.From && !listed {
+					continue
+				}
+				if hs[r] {
 					continue
 				}
 				es := epochSeq{r.Route.UpdateEpoch, r.Route.UpdateSequence}
@@ -364,6 +374,33 @@ func runC06(t *testing.T, planAny any, res *simnet.Result) {
 		}
 		time.Sleep(3 * time.Second)
 	})
+}
+
+// c06Handshakes returns the routing messages that node x consumed as session handshakes:
+// the first routing message handed to it on each session.
+func c06Handshakes(w *simnet.World, x string) map[*simnet.WireRec]bool {
+	type sk struct {
+		link string
+		gen  int
+	}
+	first := map[sk]*simnet.WireRec{}
+	firstAt := map[sk]time.Duration{}
+	for _, r := range w.Wire() {
+		if r.Route == nil || r.To != x {
+			continue
+		}
+		for _, d := range w.DeliveredAt(r) {
+			k := sk{r.Link, r.Gen}
+			if cur, ok := firstAt[k]; !ok || d < cur {
+				first[k], firstAt[k] = r, d
+			}
+		}
+	}
+	out := map[*simnet.WireRec]bool{}
+	for _, r := range first {
+		out[r] = true
+	}
+	return out
 }
 
 // c06History checks the relay discipline over the whole wire record.
